@@ -189,4 +189,15 @@ theorem request_cases (enc : JVal → String) (defNs : String) (cmp : JVal → J
                   subst h
                   exact ⟨live, expected, p, rfl, rfl, rfl, rfl, rfl, by rw [hre]; exact hp, hq⟩
 
+/-- a request of `reconcile` is a request of `reconcileKrm` (the gates in front send nothing) -/
+theorem request_of_reconcile {enc : JVal → String} {defNs : String} {cmp : JVal → JVal → Bool} {pp : Bool}
+    {rf : Rf} {owner : Owner} {stored : Option JVal} {req : Request}
+    (h : (reconcile enc defNs cmp pp rf owner stored).request = some req) :
+    (reconcileKrm enc defNs cmp rf owner stored).request = some req := by
+  unfold reconcile at h
+  cases pp <;> simp at h
+  by_cases hw : rf.api.namespaced = true ∧ rf.ns = none
+  · simp [hw] at h
+  · simpa [hw] using h
+
 end Koreo.Rf
